@@ -629,6 +629,8 @@ static void emit_wany(int k) {
     else if (!strcmp(op, "wx")) { if (chance(15)) emit("@%d wx", k); else emit("@%d wc", k); }
     else emit("@%d %s", k, op);
 }
+/* 1 when the error flag of writer k has just become non-zero (a dump right then is the baseline of the latch oracle) */
+static int w_err_edge(int k) { static int prev[NOBJ]; int e = W[k].w ? (int)W[k].w->error_flags : 0; int edge = e && !prev[k]; prev[k] = e; return edge; }
 /* a write sequence replayed at several capacities: the ops are fixed first, then re-emitted */
 static void gen_writer(long id, int thorough) {
     case_begin(id);
@@ -647,9 +649,12 @@ static void gen_writer(long id, int thorough) {
     /* lines[0] is the W line; re-emit the rest at chosen capacities on writer @0 */
     int ncap = thorough ? 0 : 5;
     size_t caps[8]; caps[0] = total; caps[1] = total ? total - 1 : 0; caps[2] = 0; caps[3] = total + 2; caps[4] = total ? rn((uint32_t)total) : 1;
-    if (thorough && total <= 300) { for (size_t c = 0; c <= total + 2; c++) { emit("@0 W %zu", c); for (int i = 1; i < nl; i++) { char b[1 << 18]; snprintf(b, sizeof b, "@0%s", lines[i] + 2); emit("%s", b); if (chance(25)) emit("@0 dump"); } emit("@0 dump"); if (wellformed) emit("@0 wv"); } }
-    else { if (thorough) ncap = 5; for (int j = 0; j < ncap; j++) { emit("@0 W %zu", caps[j]); for (int i = 1; i < nl; i++) { char b[1 << 18]; snprintf(b, sizeof b, "@0%s", lines[i] + 2); emit("%s", b); if (chance(10)) emit("@0 dump"); } emit("@0 dump"); if (wellformed) emit("@0 wv"); } }
+    if (thorough && total <= 300) { for (size_t c = 0; c <= total + 2; c++) { emit("@0 W %zu", c); for (int i = 1; i < nl; i++) { char b[1 << 18]; snprintf(b, sizeof b, "@0%s", lines[i] + 2); emit("%s", b); if (chance(25) || w_err_edge(0)) emit("@0 dump"); } emit("@0 dump"); if (wellformed) emit("@0 wv"); } }
+    else { if (thorough) ncap = 5; for (int j = 0; j < ncap; j++) { emit("@0 W %zu", caps[j]); for (int i = 1; i < nl; i++) { char b[1 << 18]; snprintf(b, sizeof b, "@0%s", lines[i] + 2); emit("%s", b); if (chance(10) || w_err_edge(0)) emit("@0 dump"); } emit("@0 dump"); if (wellformed) emit("@0 wv"); } }
     if (chance(10)) { emit("@0 W NULL"); emit("@0 wb 1"); emit("@0 wx"); }
+    if (chance(12)) {   /* an error that is not an overflow: reset refuses a destination of fewer than 2 bytes; nothing may be stored afterwards */
+        emit("@0 W %u", rn(2)); emit("@0 wx"); emit("@0 dump"); int n = 1 + (int)rn(4); for (int i = 0; i < n; i++) { emit_wany(0); if (chance(50)) emit("@0 dump"); } emit("@0 dump");
+    }
     free(mo); free(mi);
 }
 /* round trip: well-formed write sequence, then parse what was written (C05), then transcribe (C10) */
